@@ -67,6 +67,47 @@ theorem module_cache_per_script (h : List (Op B)) (hok : AllOk real parse find (
     rw [hfs] at this
     exact this
 
+/-! ### the stub-directory-listing layer (`typeshed._create_stub_map`)
+
+`_load_from_typeshed` builds, on every sub-module import below a project package, the map
+"importable name → .pyi file" of the package directory from `os.listdir`.  Stubs that are only found
+through this map — `P/S.pyi` next to a sub-package `P/S/__init__.py`, `P/S/__init__.pyi` — are seen
+by a later Script only if that listing is taken again: `Gen.C09.cfg.stubListingCached = false`
+(no memoising decorator on `_create_stub_map` / `_merge_create_stub_map`). -/
+
+/-- **stub_listing_fresh.**  After EVERY history (no hypothesis on stamps), the directory listing the
+stub lookup consults is the file system as it is now — there is no per-process listing to go stale.
+Breaks (does not type-check) as soon as the translator finds a memo decorator. -/
+theorem stub_listing_fresh (h : List (Op B)) (d : Path) :
+    (listing real (run real parse find (init : State B T) h) d).1
+      = fun p => ((run real parse find (init : State B T) h).fs p).isSome := by
+  rw [listing_now real _ d rfl]
+
+/-- **stub_as_fresh_process_partial.**  Under `AllOk` (stamps of changed files are newer than what the
+parser-cache layers hold — needed for the *content* of the stub, see `stale_same_mtime`), the stub
+lookup of a later Script in a long-lived process, or in a new process on a warm pickle directory,
+serves exactly what a brand-new process with an empty cache directory serves for the present files:
+the same stub file (or none), parsed from its present bytes. -/
+theorem stub_as_fresh_process_partial (h : List (Op B)) (hok : AllOk real parse find (init : State B T) h)
+    (q : StubQuery) :
+    let st := run real parse find (init : State B T) h
+    (tryLoadStub real parse st q).1 = (tryLoadStub real parse (freshProcess st) q).1
+    ∧ (tryLoadStub real parse st q).1 = stubNow parse st.fs q := by
+  intro st
+  have hi : Inv parse st := run_inv real parse find h _ (inv_init parse) hok
+  have h1 := tryLoadStub_spec real parse st q hi rfl
+  have h2 := tryLoadStub_spec real parse (freshProcess st) q (inv_freshProcess parse st) rfl
+  exact ⟨by rw [h1, h2]; rfl, h1⟩
+
+/-- a stub that no longer exists is never served, and a served stub is the parse of the bytes that
+are in that file now -/
+theorem stub_served_exists_partial (h : List (Op B)) (hok : AllOk real parse find (init : State B T) h)
+    (q : StubQuery) (p : Path) (t : T)
+    (hs : (tryLoadStub real parse (run real parse find (init : State B T) h) q).1 = some (p, t)) :
+    ∃ f, (run real parse find (init : State B T) h).fs p = some f ∧ t = parse f.bytes := by
+  rw [(stub_as_fresh_process_partial parse find h hok q).2] at hs
+  exact stubNow_exists parse _ q p t hs
+
 /-- the hypothesis is satisfiable by a history that overwrites, deletes, re-creates, renames and
 changes process: time stamps taken from one clock that ticks between operations -/
 example : AllOk real (id : Nat → Nat) (fun _ _ => none) (init : State Nat Nat)
@@ -74,6 +115,16 @@ example : AllOk real (id : Nat → Nat) (fun _ _ => none) (init : State Nat Nat)
      .load "m.py", .delete "m.py", .write "m.py" 3 30, .write "n.py" 4 40, .rename "n.py" "m.py",
      .load "m.py"] := by
   simp [AllOk, OpOk, Fresh, step, load, cachedLoad, fallLoad, save, init, upd, real, JediModel.Gen.C09.cfg]
+
+/-- … and by the history of the stub witnesses below: a sub-package is queried, then a sibling stub
+appears with a fresh stamp -/
+example : AllOk real (id : Nat → Nat) (fun _ _ => none) (init : State Nat Nat)
+    [.write "pkg/spk/__init__.py" 1 10, .tick 5,
+     .stubImport { dir := "pkg", direct := ["pkg/spk/__init__.pyi"], useListing := true,
+                   pkgStub := "pkg/spk/__init__.pyi", modStub := "pkg/spk.pyi", pyAbsent := false },
+     .tick 5, .write "pkg/spk.pyi" 2 30] := by
+  simp [AllOk, OpOk, Fresh, step, tryLoadStub, loadFirst, listing, stubMapOf, load, init, upd, real,
+    JediModel.Gen.C09.cfg]
 
 end
 
@@ -104,6 +155,47 @@ theorem stale_older_than_pickle :
 file; an older sibling moved over a cached module is served stale, in the same process -/
 theorem stale_after_rename :
     ld [.write "m" 1 20, .write "n" 2 10, .load "m", .rename "n" "m"] "m" = some 1 := by decide
+
+/-- the stub of the sub-package `pkg.spk` (`pkg/spk/__init__.py`): step 2 probes
+`pkg/spk/__init__.pyi`, step 3 the listing of `pkg` -/
+def spkQ : StubQuery :=
+  { dir := "pkg", direct := ["pkg/spk/__init__.pyi"], useListing := true,
+    pkgStub := "pkg/spk/__init__.pyi", modStub := "pkg/spk.pyi", pyAbsent := false }
+
+/-- a sub-package is queried, then `pkg/spk.pyi` appears (fresh stamp: `AllOk` holds, see the
+`example` above) -/
+def stubHist : List (Op Nat) :=
+  [.write "pkg/spk/__init__.py" 1 10, .tick 5, .stubImport spkQ, .tick 5, .write "pkg/spk.pyi" 2 30]
+
+/-- non-vacuity of `stub_as_fresh_process_partial`: with the configuration read from the source the
+new sibling stub is served, as in a fresh process; after its removal nothing is served -/
+example : (tryLoadStub real P (run real P F init stubHist) spkQ).1 = some ("pkg/spk.pyi", 2)
+    ∧ (tryLoadStub real P (freshProcess (run real P F init stubHist)) spkQ).1 = some ("pkg/spk.pyi", 2)
+    ∧ (tryLoadStub real P (run real P F init (stubHist ++ [.stubImport spkQ, .delete "pkg/spk.pyi"])) spkQ).1
+        = none := by decide
+
+/-- **stub-listing witness** (the reason for `stub_listing_fresh`): if `_create_stub_map` is memoised
+per process, the listing of `pkg` is frozen by the first sub-module import; a sibling stub added
+afterwards — with a perfectly fresh stamp — is missed by every later Script of the process, while
+a fresh process (and a new process: the memo is in-memory only) serves it -/
+theorem stale_if_stub_listing_cached :
+    let cached : Cfg := { real with stubListingCached := true }
+    (tryLoadStub cached P (run cached P F init stubHist) spkQ).1 = none
+    ∧ (tryLoadStub cached P (freshProcess (run cached P F init stubHist)) spkQ).1 = some ("pkg/spk.pyi", 2)
+    ∧ (tryLoadStub cached P (run cached P F init (stubHist ++ [.newProcess])) spkQ).1
+        = some ("pkg/spk.pyi", 2) := by
+  decide
+
+/-- … while removals and overwrites are not affected by such a memo (the frozen listing only names
+the file; reading it fails / goes through the parser cache): the defect needs a stub that is ADDED -/
+theorem stub_listing_cached_delete_harmless :
+    let cached : Cfg := { real with stubListingCached := true }
+    let h : List (Op Nat) := [.write "pkg/spk/__init__.py" 1 10, .write "pkg/spk.pyi" 2 10, .tick 5,
+      .stubImport spkQ, .tick 5]
+    (tryLoadStub cached P (run cached P F init (h ++ [.delete "pkg/spk.pyi"])) spkQ).1 = none
+    ∧ (tryLoadStub cached P (run cached P F init (h ++ [.write "pkg/spk.pyi" 3 30])) spkQ).1
+        = some ("pkg/spk.pyi", 3) := by
+  decide
 
 /-- a module cache that outlives the Script hides every later change, fresh stamps or not -/
 theorem stale_if_module_cache_shared :
